@@ -251,9 +251,55 @@ def _is_lru(fn):
     return False
 
 
+def _string_constants(trees):
+    """module-level NAME = "literal" of every typedpy module (attribute names passed to setattr by name)"""
+    out = {}
+    for tree in trees:
+        for n in tree.body:
+            if isinstance(n, ast.Assign) and isinstance(n.value, ast.Constant) and isinstance(n.value.value, str):
+                for t in n.targets:
+                    if isinstance(t, ast.Name):
+                        out.setdefault(t.id, n.value.value)
+    return out
+
+
+def _class_installs(rel, tree, consts):
+    """attributes a module-level function installs on a class it is handed (`cls.X = v`, `setattr(cls, NAME, v)` where
+    cls is a parameter or `cls = <expr>.__class__`): state shared by all instances, written during operations"""
+    out = []
+    for fn in tree.body:
+        if not isinstance(fn, ast.FunctionDef):
+            continue
+        params = {a.arg for a in fn.args.args + fn.args.kwonlyargs}
+        is_cls = "cls" in params or any(
+            isinstance(n, ast.Assign) and any(isinstance(t, ast.Name) and t.id == "cls" for t in n.targets)
+            and isinstance(n.value, ast.Attribute) and n.value.attr == "__class__" for n in ast.walk(fn))
+        if not is_cls:
+            continue
+        for n in ast.walk(fn):
+            if isinstance(n, (ast.Assign, ast.AugAssign)):
+                for t in (n.targets if isinstance(n, ast.Assign) else [n.target]):
+                    if isinstance(t, ast.Attribute) and isinstance(t.value, ast.Name) and t.value.id == "cls":
+                        out.append({"fn": fn.name, "file": rel, "attr": t.attr, "line": n.lineno})
+            elif (isinstance(n, ast.Call) and isinstance(n.func, ast.Name) and n.func.id == "setattr" and len(n.args) == 3
+                  and isinstance(n.args[0], ast.Name) and n.args[0].id == "cls"):
+                a = n.args[1]
+                if isinstance(a, ast.Constant) and isinstance(a.value, str):
+                    attr = a.value
+                elif isinstance(a, ast.Name) and a.id in consts:
+                    attr = consts[a.id]
+                else:
+                    attr = "?"
+                out.append({"fn": fn.name, "file": rel, "attr": attr, "line": n.lineno})
+    return out
+
+
 def cache_access():
-    """-> {"entries": [{name, kind, file, line, progs: [{fn, line, end, acts: [(coq, kind, line, end)]}]}]}"""
+    """-> {"entries": [{name, kind, file, line, progs: [{fn, line, end, acts: [(coq, kind, line, end)]}]}],
+           "installs": [{fn, file, attr, line}]}"""
     entries = []
+    installs = []
+    parsed = []
     root = os.path.join(core.REPO, "typedpy")
     for dp, dn, fns in sorted(os.walk(root)):
         dn.sort()
@@ -269,6 +315,7 @@ def cache_access():
                                 "progs": [{"fn": "?", "line": 0, "end": 0, "acts": [("CStore (COther 0)", "U", 0, 0)]}]})
                 continue
             mod = rel[len("typedpy/"):-3].replace(os.sep, ".")
+            parsed.append((rel, tree))
             conts = _module_containers(tree)
             for name, line in sorted(conts.items(), key=lambda kv: (kv[0][0] or "", kv[0][1])):
                 progs = []
@@ -319,7 +366,10 @@ def cache_access():
     except Exception as ex:  # noqa  fail closed
         entries.append({"name": "field-attrs:regen-failed:%s" % type(ex).__name__, "kind": "field-attr", "file": "", "line": 0,
                         "progs": [{"fn": "?", "line": 0, "end": 0, "acts": [("CStore (COther 0)", "U", 0, 0)]}]})
-    return {"entries": entries}
+    consts = _string_constants([t for _, t in parsed])
+    for rel, tree in parsed:
+        installs += _class_installs(rel, tree, consts)
+    return {"entries": entries, "installs": installs}
 
 
 def _ident(s):
@@ -340,6 +390,10 @@ def render_cache_access(ca):
                      % (ident, e["name"], e["kind"], e["file"], progs))
         lines.append("")
     lines.append("Definition cache_access : list centry :=\n  [ %s ]." % ";\n    ".join(names))
+    lines.append("")
+    lines.append("(* attributes installed on a class object by a function that is handed the class (function, attribute) *)")
+    lines.append("Definition class_installs : list (string * string) :=\n  [ %s ]." % ";\n    ".join(
+        sorted({'("%s", "%s")' % (i["fn"], i["attr"]) for i in ca.get("installs", [])})))
     return "\n".join(lines) + "\n"
 
 
@@ -348,6 +402,7 @@ def regenerate():
         ca = cache_access()
     except Exception as ex:  # noqa  fail closed
         ca = {"entries": [{"name": "regen-failed:%s" % type(ex).__name__, "kind": "module-container", "file": "", "line": 0,
-                           "progs": [{"fn": "?", "line": 0, "end": 0, "acts": [("CStore (COther 0)", "U", 0, 0)]}]}]}
+                           "progs": [{"fn": "?", "line": 0, "end": 0, "acts": [("CStore (COther 0)", "U", 0, 0)]}]}],
+              "installs": []}
     core.write_if_changed(os.path.join(core.COQDIR, "theories", "Gen", "CacheAccess.v"), render_cache_access(ca))
     return ca
